@@ -68,6 +68,11 @@ pub fn alloc_reset() {
     COUNT.store(0, Ordering::SeqCst);
 }
 
+/// Bytes allocated since the last [`alloc_reset`] that are still live (0 when more was freed than allocated).
+pub fn alloc_live_now() -> u64 {
+    LIVE.load(Ordering::SeqCst).max(0) as u64
+}
+
 /// Read the counters.
 pub fn alloc_stats() -> AllocStats {
     AllocStats {
@@ -210,6 +215,64 @@ where
     match handle.join() {
         Ok(Ok(v)) => Ok(v),
         Ok(Err(_)) | Err(_) => Err(last_panic_line()),
+    }
+}
+
+type Job = Box<dyn FnOnce() -> Box<dyn std::any::Any + Send> + Send>;
+type JobResult = Result<Box<dyn std::any::Any + Send>, String>;
+
+struct SharedWorker {
+    tx: std::sync::mpsc::Sender<Job>,
+    rx: std::sync::mpsc::Receiver<JobResult>,
+}
+
+static SHARED_WORKER: std::sync::Mutex<Option<SharedWorker>> = std::sync::Mutex::new(None);
+
+fn spawn_shared_worker() -> SharedWorker {
+    let (tx, rx_job) = std::sync::mpsc::channel::<Job>();
+    let (tx_res, rx) = std::sync::mpsc::channel::<JobResult>();
+    std::thread::Builder::new()
+        .stack_size(WORKER_STACK)
+        .spawn(move || {
+            for job in rx_job {
+                let r = catch_unwind(AssertUnwindSafe(job)).map_err(|_| last_panic_line());
+                if tx_res.send(r).is_err() {
+                    break;
+                }
+            }
+        })
+        .expect("cannot spawn worker thread");
+    SharedWorker { tx, rx }
+}
+
+/// Like [`on_worker`], but ALL calls of one driver process run one after the other on the SAME long-lived thread
+/// (2 MiB stack, each call inside `catch_unwind`): whatever the library keeps between loads - thread-locals,
+/// statics, a poisoned lock after a panic - then shows up as a result that depends on the inputs processed before.
+/// With the environment variable `VERIF_FRESH_THREADS=1` every call gets a thread of its own instead (the isolated
+/// reference).
+pub fn on_shared_worker<T, F>(f: F) -> Result<T, String>
+where
+    F: FnOnce() -> T + Send + 'static,
+    T: Send + 'static,
+{
+    if std::env::var("VERIF_FRESH_THREADS").map_or(false, |v| v == "1") {
+        return on_worker(f);
+    }
+    let mut guard = SHARED_WORKER.lock().unwrap_or_else(|e| e.into_inner());
+    if guard.is_none() {
+        *guard = Some(spawn_shared_worker());
+    }
+    let job: Job = Box::new(move || Box::new(f()) as Box<dyn std::any::Any + Send>);
+    let sent = guard.as_ref().unwrap().tx.send(job).is_ok();
+    let res = if sent { guard.as_ref().unwrap().rx.recv().ok() } else { None };
+    match res {
+        Some(Ok(b)) => Ok(*b.downcast::<T>().expect("shared worker: result type")),
+        Some(Err(msg)) => Err(msg),
+        None => {
+            // the worker thread is gone (cannot normally happen): start a new one for the next call
+            *guard = None;
+            Err("worker thread lost".to_string())
+        }
     }
 }
 
